@@ -136,6 +136,37 @@ def cases(spec, ctx):
         if rng.random() < 0.3:
             table["major_version"] = ["set", [rng.choice([1, 2, 3])]]
         case = {"recipe": r, "table": table, "pattern": rng.randrange(len(PATTERNS))}
+        if rng.random() < 0.2:
+            # a second column for the same level (the real levels 2, 3, 64, 65 have one column per group of base
+            # formats): the header must satisfy ONE column as a whole, not the union of the two
+            t2 = copy.deepcopy(table)
+            if rng.random() < 0.6:
+                # targeted shape: the configuration's own base format sits in a column that forbids some custom_*
+                # flags (the format may need them), every other base format in a column that allows everything
+                table["base_video_format"] = ["set", [r["base"]]]
+                for k in rng.sample(FLAG_KEYS[:11], rng.choice([1, 2, 3])):
+                    table[k] = ["set", [False]]
+                for k in FLAG_KEYS[:11]:
+                    t2.pop(k, None)
+                for k in VALUE_KEYS:
+                    t2.pop(k, None)
+                t2["base_video_format"] = ["set", sorted(set(rng.sample(range(0, 23), rng.randrange(1, 6))) - {r["base"]}) or [(r["base"] + 1) % 23]]
+            else:
+                b1 = set(table.get("base_video_format", ["set", rng.sample(range(0, 23), 3)])[1])
+                table["base_video_format"] = ["set", sorted(b1)]
+                t2["base_video_format"] = ["set", sorted(set(rng.sample(range(0, 23), rng.randrange(1, 6))) - b1) or [(max(b1) + 1) % 23]]
+                # only sequence-header keys differ between the columns, as in the real tables: the picture-level
+                # asym_transform*_flag cells stay identical (the encoder decides those from the codec features alone,
+                # without knowing which column its header fell into -- DESIGN section 6, observation O3)
+                for k in rng.sample(FLAG_KEYS[:11] + list(INDEX_KEYS), rng.choice([1, 2, 3])):
+                    if k in INDEX_KEYS:
+                        t2[k] = ["set", sorted(rng.sample(range(0, INDEX_KEYS[k] + 1), rng.randrange(1, 4)))]
+                    else:
+                        t2[k] = ["set", [rng.choice([True, False])]]
+            if rng.random() < 0.5:
+                table, t2 = t2, table
+                case["table"] = table
+            case["more_columns"] = [t2]
         if rng.random() < 0.15:
             # sibling encodes; the targeted shape: same luma size/transform/slicing, other chroma sampling, under a
             # column that demands equally sized slices (true for one of the two only)
@@ -161,7 +192,7 @@ def cases(spec, ctx):
         yield case
 
 
-def install(level, table, pattern):
+def install(level, table, pattern, more_columns=()):
     from vc2_conformance.constraint_table import AnyValue, ValueSet
     from vc2_conformance.level_constraints import LEVEL_CONSTRAINTS, LEVEL_SEQUENCE_RESTRICTIONS, LevelSequenceRestrictions
     from vc2_data_tables import Levels
@@ -171,11 +202,12 @@ def install(level, table, pattern):
     for i in reversed(range(len(LEVEL_CONSTRAINTS))):
         if lvl in LEVEL_CONSTRAINTS[i]["level"] and not isinstance(LEVEL_CONSTRAINTS[i]["level"], AnyValue):
             del LEVEL_CONSTRAINTS[i]
-    col = {k: AnyValue() for k in keys}
-    col["level"] = ValueSet(lvl)
-    for k, (kind, vals) in table.items():
-        col[k] = ValueSet(*vals)
-    LEVEL_CONSTRAINTS.append(col)
+    for t in [table] + list(more_columns):
+        col = {k: AnyValue() for k in keys}
+        col["level"] = ValueSet(lvl)
+        for k, (kind, vals) in t.items():
+            col[k] = ValueSet(*vals)
+        LEVEL_CONSTRAINTS.append(col)
     LEVEL_SEQUENCE_RESTRICTIONS[lvl] = LevelSequenceRestrictions("synthetic", pattern)
 
 
@@ -240,7 +272,9 @@ def witness_alternative_header(cf, seq, limit=300):
 def run_case(case, ctx):
     table = case["table"]
     try:
-        install(case["recipe"]["level"], table, PATTERNS[case["pattern"]])
+        install(case["recipe"]["level"], table, PATTERNS[case["pattern"]], case.get("more_columns", ()))
+        if case.get("more_columns"):
+            ctx.count("multi_column_tables")
         # the recipe and, right after it under the same installed table, its siblings (one attribute changed):
         # whatever the encoder remembers between encodes under too coarse a key shows in the sibling's verdict
         for i, r in enumerate([case["recipe"]] + list(case.get("siblings", []))):
